@@ -63,7 +63,7 @@ M = [
  ("M19-signed-fill-from-last-byte", "src/parser/num.rs", ["C04"],
   [("        let is_negative = bytes[0] > 0x7F;", "        let is_negative = bytes[bytes.len() - 1] > 0x7F;")],
   "sign extension of shortened integers looks at the last byte instead of the first"),
- ("M20-literal-escape-not-in-crc", "src/transport/decode.rs", ["C01","C02"],
+ ("M20-literal-escape-not-in-crc", "src/transport/decode.rs", ["C01"],
   [("                        self.crc.update(&payload);\n\n                        // push escape sequence bytes", "                        // push escape sequence bytes")],
   "decoder leaves the doubled escape out of the CRC (frames containing 1b1b1b1b are rejected)"),
  ("M21-list-count-nibble-only", "src/parser/streaming.rs", ["C09","C04"],
